@@ -471,10 +471,13 @@ func (t *TreeBuilder) writeTree(entries []treeNode) (Hash, error) {
 			// TODO: support entryBlob's permissions here
 			input += "100644 blob " + entry.gitID.String() + "\t" + entry.name
 		}
-		input += "\n"
+		// entries are NUL terminated (-z) so that names are taken verbatim:
+		// without it, git unquotes names that begin with a double quote and
+		// rejects others
+		input += "\x00"
 	}
 
-	stdOut, err := t.repo.executor("mktree").withStdIn(bytes.NewBufferString(input)).executeString()
+	stdOut, err := t.repo.executor("mktree", "-z").withStdIn(bytes.NewBufferString(input)).executeString()
 	if err != nil {
 		return ZeroHash, fmt.Errorf("unable to write Git tree: %w", err)
 	}
